@@ -914,6 +914,11 @@ def m_iter_filter_map(interp, args, info):
     return IterV("filter_map", make_iter(interp, args[0]), args[1])
 
 
+@model("std::iter::Iterator::flat_map")
+def m_iter_flat_map(interp, args, info):
+    return IterV("flatten", IterV("map", make_iter(interp, args[0]), args[1]), None)
+
+
 @model("std::iter::Iterator::zip")
 def m_iter_zip(interp, args, info):
     return IterV("zip", make_iter(interp, args[0]), make_iter(interp, args[1]))
@@ -1068,6 +1073,11 @@ def m_slice_is_empty(interp, args, info):
 def _elem_ptr(interp, p, i):
     c, path = interp.deref(p)
     v = interp.read(c, path)
+    if isinstance(v, Tok) and v.kind == "L":
+        # opaque identifier list: only its emptiness is observable; elements are opaque
+        items = ListV([Tok("O", "%s[%d]" % (v.name, k)) for k in range(len(v.val))])
+        interp.events.append(("is_empty", v.name))
+        return Cell(items), (), len(v.val)
     while isinstance(v, (Ptr, BoxV)):
         c, path = interp.deref(v)
         v = interp.read(c, path)
